@@ -1,6 +1,9 @@
 use std::io::{self, Write};
 
-use super::{write_delimiter, write_idx_field, write_other_fields, write_value_field};
+use super::{
+    write_delimiter, write_idx_field, write_other_fields, write_raw_or_string_field,
+    write_value_field,
+};
 use crate::header::record::value::{
     Map,
     map::{Contig, contig::tag},
@@ -17,12 +20,12 @@ where
 
     if let Some(md5) = contig.md5() {
         write_delimiter(writer)?;
-        write_value_field(writer, tag::MD5, md5)?;
+        write_raw_or_string_field(writer, tag::MD5, md5)?;
     }
 
     if let Some(url) = contig.url() {
         write_delimiter(writer)?;
-        write_value_field(writer, tag::URL, url)?;
+        write_raw_or_string_field(writer, tag::URL, url)?;
     }
 
     write_idx_field(writer, contig.idx())?;
